@@ -1,7 +1,10 @@
 package main
 
 import (
+	"fmt"
 	"go/types"
+	"math/big"
+	"os"
 	"strings"
 
 	"golang.org/x/tools/go/ssa"
@@ -269,6 +272,177 @@ func propC07(a *Analysis, r *Registry) {
 			}
 			if !fromLoops(lo) || !fromLoops(hi) {
 				r.Fail("B-C07 bisection", name+"/bracket", where, "the bracket handed to bisectBool is not the one produced by the expansion loops")
+			}
+			// the expansion itself (when it is written in the closure): starting from x = 0 one end
+			// moves away by a step that grows geometrically, in the direction in which the target
+			// lies — up while CDF(end) < y, down while y <= CDF(end) — until the target is passed
+			// or the end is infinite, the other end following one step behind
+			cdf0 := env.MustParse("dist.CDF(0)")
+			yv := env.Vars["y"].RF
+			nUp, nDown := 0, 0
+			for _, l := range fc.Ctx.Loops() {
+				if fc.Ctx.LoopOf(l.Header) != nil && fc.Ctx.LoopOf(l.Header).Header != l.Header {
+					continue
+				}
+				_, guard, _, msg := b.loopGuard(fc, l.Header)
+				if msg != "" {
+					continue
+				}
+				lwhere := a.W.InstrPos(l.Header.Instrs[len(l.Header.Instrs)-1])
+				var phis []*RF
+				for _, in := range l.Header.Instrs {
+					ph, ok := in.(*ssa.Phi)
+					if !ok {
+						break
+					}
+					if isFloatType(ph.Type()) {
+						phis = append(phis, fc.Val(ph))
+					}
+				}
+				// roles: the moving end X, its CDF value Y, the step D, by their recurrences
+				var Xm, Ym, Dm *RF
+				dir := 0
+				for _, d := range phis {
+					di, dn := recurrenceOrNil(fc, d)
+					if di == nil {
+						continue
+					}
+					c0, isC := di.IsConst()
+					q := dn.Div(d)
+					cq, isQ := q.IsConst()
+					if !isC || c0.Sign() <= 0 || !isQ || cq.Cmp(big.NewRat(1, 1)) <= 0 {
+						continue
+					}
+					for _, x := range phis {
+						xi, xn := recurrenceOrNil(fc, x)
+						if xi == nil || !xi.Equal(S.Int(0)) {
+							continue
+						}
+						switch {
+						case xn.Equal(x.Add(d)):
+							Xm, Dm, dir = x, d, 1
+						case xn.Equal(x.Sub(d)):
+							Xm, Dm, dir = x, d, -1
+						}
+					}
+				}
+				if Xm == nil {
+					continue
+				}
+				cn := name + "/expansion/" + map[int]string{1: "up", -1: "down"}[dir]
+				if dir > 0 {
+					nUp++
+				} else {
+					nDown++
+				}
+				_, xn := recurrenceOrNil(fc, Xm)
+				for _, yq := range phis {
+					yi, yn := recurrenceOrNil(fc, yq)
+					if yi != nil && yi.Equal(cdf0) && yn.Equal(S.MakeFn("call:CDF", env.Vars["dist"].RF, xn)) {
+						Ym = yq
+					}
+				}
+				if Ym == nil {
+					// bottom-tested: the end is moved first and the loop goes round again while the
+					// CDF at the moved end has not passed the target (entered only on the side where
+					// one step is always needed)
+					cont := fc.ContinueCond(l.Header)
+					cx := S.MakeFn("call:CDF", env.Vars["dist"].RF, xn)
+					var w2 *RF
+					if dir > 0 {
+						w2 = S.And(S.Cmp("<", cx, yv), S.Cmp("!=", xn, env.MustParse("stats.inf")))
+					} else {
+						w2 = S.And(S.Cmp("<=", yv, cx), S.Cmp("!=", xn, env.MustParse("-stats.inf")))
+					}
+					if cont.Equal(w2) || X.EquivByCases(cont, w2, 0) {
+						r.OK("B-C07 bisection", cn+"/while", lwhere, "moves the end, then goes round again exactly while the CDF there has not passed y and the end is finite")
+					} else {
+						r.Fail("B-C07 bisection", cn+"/cdf-of-end", lwhere, "no loop-carried value that starts at dist.CDF(0) and becomes dist.CDF of the moved end, and the loop is not the bottom-tested form either: continues while "+clip(cont.String(), 160))
+						continue
+					}
+				} else {
+					r.OK("B-C07 bisection", cn+"/cdf-of-end", lwhere, "the moving end starts at 0, moves by a positive step that grows geometrically, and its CDF value is carried with it")
+					var want *RF
+					if dir > 0 {
+						want = S.And(S.Cmp("<", Ym, yv), S.Cmp("!=", Xm, env.MustParse("stats.inf")))
+					} else {
+						want = S.And(S.Cmp("<=", yv, Ym), S.Cmp("!=", Xm, env.MustParse("-stats.inf")))
+					}
+					b.EqRF("B-C07 bisection", cn+"/while", lwhere, guard, want, map[int]string{1: "expands upward exactly while CDF(hi) < y and hi is finite", -1: "expands downward exactly while y <= CDF(lo) and lo is finite"}[dir])
+				}
+				_ = Dm
+				// the other end follows one step behind
+				follows := false
+				for _, o := range phis {
+					if _, on := recurrenceOrNil(fc, o); on != nil && on.Equal(Xm) && !o.Equal(Xm) {
+						follows = true
+					}
+				}
+				if !follows {
+					// (the trailing end may exist only past the loop: taken from the moving end's
+					// value before its last move)
+					trail := lo
+					if dir < 0 {
+						trail = hi
+					}
+					var dig func(v *RF, depth int) bool
+					dig = func(v *RF, depth int) bool {
+						if len(FindAtomID(v, Xm.SingleAtom().ID)) > 0 {
+							return true
+						}
+						if depth > 4 {
+							return false
+						}
+						for _, at := range v.Atoms(true) {
+							if ph, ok := X.phiOf[at.ID]; ok {
+								vals, _ := fc.Ctx.PhiLiveEdges(ph)
+								for _, pv := range vals {
+									if pr := fc.Val(pv); !pr.Equal(v) && dig(pr, depth+1) {
+										return true
+									}
+								}
+							}
+						}
+						return false
+					}
+					follows = dig(trail, 0)
+				}
+				if follows {
+					r.OK("B-C07 bisection", cn+"/other-end-follows", lwhere, "the other end of the bracket takes the moving end's previous position")
+				} else {
+					r.Fail("B-C07 bisection", cn+"/other-end-follows", lwhere, "no end of the bracket takes the moving end's previous position: the bracket does not stay adjacent to the target")
+				}
+				// direction chosen by where the target lies relative to CDF(0)
+				var pre *ssa.BasicBlock
+				for _, p := range fc.Ctx.LivePreds(l.Header) {
+					if !l.Body[p.Index] {
+						pre = p
+					}
+				}
+				up := S.Cmp("<", cdf0, yv)
+				okDir := pre != nil && ((dir > 0 && fc.HoldsAt(l.Header, up)) || (dir < 0 && fc.RefutedAt(l.Header, up)))
+				if !okDir && pre != nil {
+					okDir = (dir > 0 && fc.HoldsAt(pre, up)) || (dir < 0 && fc.RefutedAt(pre, up))
+				}
+				if !okDir && pre != nil {
+					func() {
+						defer func() { recover() }()
+						entry := S.And(fc.ReachCondFrom(fc.Ctx.LoopFreeRegionStart(pre), pre), fc.edgeCond(pre, l.Header))
+						ev := X.EvalCond(up, []Assumption{{Cond: entry, True: true}})
+						if os.Getenv("GMSA_DEBUG_C07") != "" {
+							fmt.Fprintf(os.Stderr, "C07 dir=%d entry=%s ev=%v\n", dir, entry, ev)
+						}
+						okDir = (dir > 0 && ev == True) || (dir < 0 && ev == False)
+					}()
+				}
+				if okDir {
+					r.OK("C-decision", cn+"/direction", lwhere, map[int]string{1: "entered only when CDF(0) < y", -1: "entered only when not CDF(0) < y"}[dir])
+				} else {
+					r.Fail("C-decision", cn+"/direction", lwhere, "the direction of the expansion is not decided by CDF(0) < y")
+				}
+			}
+			if len(fc.Ctx.Loops()) > 0 && (nUp != 1 || nDown != 1) {
+				r.Fail("B-C07 bisection", name+"/expansion", where, fmt.Sprintf("expected one upward and one downward expansion loop from x = 0, found %d/%d", nUp, nDown))
 			}
 		})
 		a.CheckNoMutation(r, "A-1 no-mutation", parent, nil)
